@@ -1202,7 +1202,6 @@ func sliceBase(v ssa.Value) ssa.Value {
 	return v
 }
 
-
 // objIdent names the object a value denotes, for telling two hash objects apart on a path.
 func objIdent(v lfVal) string {
 	switch x := v.(type) {
@@ -1213,7 +1212,6 @@ func objIdent(v lfVal) string {
 	}
 	return fmt.Sprintf("?%T", v)
 }
-
 
 // rootCallPos: the position of the call in the entry function within which x is executed.
 func rootCallPos(fr *lfFrame, x *ssa.Call) token.Pos {
